@@ -266,8 +266,16 @@ func checkC06(c *Ctx) {
 				seen[f.Tops[k].Name] = true
 			}
 		}
-		src, _ := RenderFile(f, Style{R: r, Layout: r.Intn(3), Parens: r.Chance(1, 4)})
-		o := Opts{Optimize: r.Chance(1, 2), AutoVar: av, FontConfig: repoFontConfig}
+		// every third file is written with poryswitch (statements, texts, lists, nested) around
+		// what it denotes: hoisting must see through the selection
+		written := f
+		var sw map[string]string
+		if i%3 == 2 {
+			sw = map[string]string{"GAME": "RUBY", "LANG": "EN"}
+			written, _ = DecorateFile(f, sw, r, true, true, true, false)
+		}
+		src, _ := RenderFile(written, Style{R: r, Layout: r.Intn(3), Parens: r.Chance(1, 4)})
+		o := Opts{Optimize: r.Chance(1, 2), AutoVar: av, FontConfig: repoFontConfig, Switches: sw}
 		res := Compile(src, o)
 		if res.Panic != "" || res.TimedOut {
 			c.Violate(Violation{What: "compiler panicked or hung on a well-formed file", Source: src, Opts: &o, Detail: map[string]interface{}{"panic": res.Panic}})
